@@ -69,19 +69,30 @@ struct Stateful : CmpProv {
   int dir;
   Stateful() : dir(1) {}
   explicit Stateful(int o) : CmpProv(o), dir(-1) {}
+  Stateful(int o, int d) : CmpProv(o), dir(d) {}
   template <class A, class B>
   bool operator()(const A &a, const B &b) const { called(); return dir > 0 ? key_of(a) < key_of(b) : key_of(a) > key_of(b); }
   static const char *name() { return "stateful"; }
 };
-// transparent comparator (heterogeneous lookups with int keys)
+// heterogeneous key that is equivalent to a *run* of elements: all elements whose key / 2 equals c (consistent with the order by key)
+struct HalfKey { int c; };
+// transparent comparator (heterogeneous lookups with int keys, and with HalfKey designating several elements at once)
 struct TLess : CmpProv {
   typedef void is_transparent;
   TLess() {}
   explicit TLess(int o) : CmpProv(o) {}
   template <class A, class B>
   bool operator()(const A &a, const B &b) const { called(); return key_of(a) < key_of(b); }
+  template <class A>
+  bool operator()(const A &a, const HalfKey &h) const { called(); return (key_of(a) >> 1) < h.c; }
+  template <class B>
+  bool operator()(const HalfKey &h, const B &b) const { called(); return h.c < (key_of(b) >> 1); }
   static const char *name() { return "transparent_less"; }
 };
+
+// per-object comparator state: the sets of one pool are constructed with comparator objects in different states where the type has state
+template <class C> struct CmpVariant { static C make(int) { return C(kHarnessOrigin); } static const bool kHasState = false; };
+template <> struct CmpVariant<Stateful> { static Stateful make(int v) { return Stateful(kHarnessOrigin, (v & 1) ? 1 : -1); } static const bool kHasState = true; };
 
 template <class C> struct CmpTransparent { static const bool value = false; };
 template <> struct CmpTransparent<TLess> { static const bool value = true; };
